@@ -171,6 +171,34 @@ def case_identities(mon, a, f, om, lat, h):
               dict(case, float_form=[c0, rp], angle_form=[ca, rpa]))
     mon.check("linear_velocity==omega*rp", abs(lv - om * rp) <= 1e-15 *
               abs(om * a), dict(case, v=lv, omega_rp=om * rp))
+    # latitudes a hair away from the one just asked, on the same object and
+    # straight after it (an answer kept from the previous call and looked up
+    # by a rounded latitude shows here)
+    for d in (4e-6, -4e-6, 1e-7, -1e-9, 3e-4, -0.0):
+        lat_n = min(90.0, max(-90.0, lat + d))
+        try:
+            cn = e.rho_cosphi(lat_n, 0.0)
+            sn = e.rho_sinphi(lat_n, 0.0)
+            rpn = e.rp(lat_n)
+            lvn = e.linear_velocity(lat_n)
+            rmn = e.rm(lat_n)
+        except Exception as ex:
+            mon.dev("neighbour-latitude", dict(case, lat_n=lat_n,
+                                               raised=repr(ex)))
+            break
+        sphi = math.sin(math.radians(lat_n))
+        e2_ = 2 * f - f * f
+        rm_want = a * (1 - e2_) / (1 - e2_ * sphi * sphi) ** 1.5
+        mon.check("neighbour-latitude",
+                  abs(cn * cn + (sn * a / b) ** 2 - 1.0) <= 1e-12
+                  and abs(rpn - a * cn) <= 1e-12 * a
+                  and abs(lvn - om * rpn) <= 1e-15 * abs(om * a)
+                  and abs(rmn - rm_want) <= 1e-11 * a,
+                  lambda: dict(case, lat_n=lat_n, rho_cosphi=cn,
+                               rho_sinphi=sn, rp=rpn, a_rho_cosphi=a * cn,
+                               v=lvn, omega_rp=om * rpn, rm=rmn,
+                               rm_formula=rm_want))
+    mon.cls("neighbour-latitudes-after-the-call", ident)
     phi = math.radians(lat)
     mon.check("height-increment",
               abs((ch - c0) - h / a * math.cos(phi)) <= 1e-15 * max(1, abs(
